@@ -6,6 +6,7 @@
 -/
 import Mathlib.Algebra.Order.Floor.Ring
 import TradingVerif.Lemmas.Basic
+import TradingVerif.Lemmas.IntInst
 set_option linter.unusedSectionVars false
 set_option linter.unusedVariables false
 namespace TV
@@ -241,7 +242,6 @@ theorem sub_lot_skipped (w : World K) (b : Broker K) (nlv : K) (r : Rebal K) (al
   simp [hf, HasTrunc.trunc, this]
 
 /-! Mutant witnesses (integers; `int()` is the identity there). -/
-instance : HasTrunc Int := ⟨id⟩
 
 /-- exactly at the threshold the trade is emitted (`<`, not `<=`): weight 1/2·... here mult·q·p/nlv = 50 -/
 example :
